@@ -22,13 +22,19 @@ Configs ==
       g \in (IF Quick THEN { <<20, 15>> } ELSE { <<20, 15>>, <<17, 19>> }),
       sh \in Shapes, nt \in (IF Quick THEN {1, 3} ELSE 1..3), dth \in {3, 12},
       st \in (IF Quick THEN { <<11, 7, 1, 0>>, <<99, 12, 31, 18>> } ELSE { <<11, 7, 1, 0>>, <<99, 12, 31, 18>>, <<12, 2, 28, 21>> }) }
+\* grids with 1000 or more cells in exactly one direction (the grid id of the
+\* labels then holds letters and the index record the remainders)
+BigGrids ==
+  { [nx |-> g[1], ny |-> g[2], sfc |-> <<"PRSS">>, levv |-> Uniform(<<"TEMP">>, 1), levels |-> LevelsFor(1), nt |-> 1,
+     start |-> <<11, 7, 1, 0>>, dth |-> 3, ff |-> 0, base |-> <<300, 1000, 20, 515, 760, 130>>] :
+      g \in (IF Quick THEN { <<1001, 3>> } ELSE { <<1001, 3>>, <<3, 1003>>, <<2100, 3>> }) }   \* the reader builds cell bounds from the first three rows and columns
 \* c: configuration; z: its file (records) and the packing of every field, computed once
 VARIABLES c, z
 LevList(cc, name) == IF IsSfc(cc, name) THEN <<0>> ELSE LevelsOf(cc, name)
 PackAll(cc) == [s \in 1..NVars(cc) |-> [t \in 1..cc.nt |->
                  LET name == AllNames(cc)[s] IN
                  [q \in 1..Len(LevList(cc, name)) |-> Packed(cc, name, t, LevList(cc, name)[q])]]]
-Init == c \in {x \in Configs : ReaderWindowFits(x)} /\ z = [file |-> ArlFile(c), packs |-> PackAll(c)]
+Init == c \in {x \in (IF IOEnv.PNC_ARL_FAMILY = "big" THEN BigGrids ELSE Configs) : ReaderWindowFits(x)} /\ z = [file |-> ArlFile(c), packs |-> PackAll(c)]
 Next == UNCHANGED <<c, z>>
 Spec == Init /\ [][Next]_<<c, z>>
 InvSized == \A r \in 1..Len(z.file) : RecBytesA(z.file[r]) = RecLen(c)
